@@ -194,22 +194,24 @@ Definition dense_entry (rq : nat -> Q) (j : list ((nat * nat) * expr)) (r c : na
   fold_left (fun acc t => if (Nat.eqb (fst (fst t)) r && Nat.eqb (snd (fst t)) c)%bool
                           then olift2 Qplus acc (evalQx rq (snd t)) else acc) j (Some 0%Q).
 
-Definition close (ulps : Q) (got want : Q) : bool :=
-  Qle_bool (Qabs (got - want)%Q) (ulps * (1 # 9007199254740992) * Qabs want)%Q.
-Definition oclose (ulps : Q) (o : option Q) (want : Q) : bool :=
-  match o with Some g => close ulps g want | None => false end.
+(* |got - want| <= ulps * 2^-53 * max(|want|, mag); ulps = 0 demands exact equality.  [mag] bounds the
+   magnitude of the intermediate terms (cancellation in (mult*lhs - rhs)*dscale - scale). *)
+Definition close (ulps mag : Q) (got want : Q) : bool :=
+  Qle_bool (Qabs (got - want)%Q)
+           (ulps * (1 # 9007199254740992) * (if Qle_bool mag (Qabs want) then Qabs want else mag))%Q.
+Definition oclose (ulps mag : Q) (o : option Q) (want : Q) : bool :=
+  match o with Some g => close ulps mag g want | None => false end.
 
-(* the implementation's outputs and dense jacobian (row-major, nrows x ncols) against the model;
-   ulps = 0 demands exact equality *)
-Definition check_inst (ulps : Q) (I : inst) (x : list Q) (iouts : list Q) (ncols : nat) (ijac : list Q) : val :=
+(* the implementation's outputs and dense jacobian (row-major, nrows x ncols) against the model *)
+Definition check_inst (ulps mag : Q) (I : inst) (x : list Q) (iouts : list Q) (ncols : nat) (ijac : list Q) : val :=
   let rq := envQ_of_list x in
   let nrows := length (outs I) in
   VL [VB (Nat.eqb (length iouts) nrows && Nat.eqb (length ijac) (nrows * ncols));
       vzs (map (fun p => Z.of_nat (fst p))
-               (filter (fun p => negb (oclose ulps (evalQx rq (fst (snd p))) (snd (snd p))))
+               (filter (fun p => negb (oclose ulps mag (evalQx rq (fst (snd p))) (snd (snd p))))
                        (combine (seq 0 nrows) (combine (outs I) iouts))));
       vzs (map (fun p => Z.of_nat (fst p))
-               (filter (fun p => negb (oclose ulps (dense_entry rq (jac I) (fst p / ncols) (fst p mod ncols)) (snd p)))
+               (filter (fun p => negb (oclose ulps mag (dense_entry rq (jac I) (fst p / ncols) (fst p mod ncols)) (snd p)))
                        (combine (seq 0 (nrows * ncols)) ijac)))].
 
 (* symbolic side: the pairs (D_j out_i , declared dense entry) whose equality as real functions is the
